@@ -443,6 +443,44 @@ static int run_codegen(uint64_t seed, int threads, uint32_t programs) {
   return 0;
 }
 
+// ---------------------------------------------------------------------------------------------------------------- own runtime per thread
+// Every thread constructs, uses and destroys its OWN JitRuntime / JitAllocator again and again (host information already initialised):
+// the only state the threads share are the process-wide caches (VirtMem::info, large_page_size, hardened-runtime flags, dual-mapping
+// strategy, CpuInfo::host). opt bit 1 selects dual mapping for half of the runtimes.
+static int run_ownrt(uint64_t seed, int threads, uint32_t ops, uint32_t opt) {
+#if ASMJIT_ARCH_X86 == 64
+  std::vector<uint64_t> done((size_t)threads, 0);
+  std::vector<std::thread> th;
+  for (int t = 0; t < threads; t++) th.emplace_back([&, t] {
+    Rng rng(seed * 31337 + uint64_t(t));
+    for (uint32_t k = 0; k < ops; k++) {
+      JitAllocator::CreateParams params;
+      params.options = JitAllocatorOptions(((opt & 1) && (k & 1)) ? 1u : 0u) | (rng.below(2) ? JitAllocatorOptions::kUseLargePages : JitAllocatorOptions::kNone);
+      JitRuntime rt(&params);
+      CodeHolder code;
+      code.init(rt.environment(), rt.cpu_features());
+      x86::Assembler a(&code);
+      uint32_t value = uint32_t(rng.next());
+      a.mov(x86::eax, value);
+      a.ret();
+      Fn fn = nullptr;
+      if (rt.add(&fn, &code) != Error::kOk || !fn) { mismatch(fmt("t%d ownrt: add failed", t)); continue; }
+      if (fn() != value) mismatch(fmt("t%d ownrt: function returns a wrong value", t));
+      if (VirtMem::info().page_size == 0 || CpuInfo::host().arch() == Arch::kUnknown) mismatch(fmt("t%d ownrt: host information lost", t));
+      rt.release(fn);
+      done[size_t(t)]++;
+    }
+  });
+  for (auto& t : th) t.join();
+  uint64_t total = 0; for (auto d : done) total += d;
+  printf("%s ownrt seed=%llu threads=%d ops=%u opt=%u runtimes=%llu\n", g_mismatches.empty() ? "OK" : "MISMATCH",
+         (unsigned long long)seed, threads, ops, opt, (unsigned long long)total);
+#else
+  printf("OK ownrt skipped (host is not x86-64)\n");
+#endif
+  return 0;
+}
+
 // ---------------------------------------------------------------------------------------------------------------- cold start (OUTSIDE the premise)
 // Threads that construct their own JitRuntime as their very first AsmJit call: CpuInfo::host() and VirtMem::info() are then
 // initialised concurrently. The property's premise ("once the host information has been initialised") excludes this; the mode
@@ -482,6 +520,7 @@ int main(int argc, char** argv) {
   if (mode == "alloc") run_alloc(seed, threads, ops, opt);
   else if (mode == "runtime") run_runtime(seed, threads, ops, opt);
   else if (mode == "codegen") run_codegen(seed, threads, ops);
+  else if (mode == "ownrt") run_ownrt(seed, threads, ops, opt);
   else return 2;
   for (auto& m : g_mismatches) printf("DETAIL %s\n", m.c_str());
   fflush(stdout);
